@@ -193,7 +193,8 @@ class C09(Prop):
                 b += K("DEFAULT") + [L(o[1]) if o[1].startswith("'") else N(o[1])]
             else:
                 b += K("COMMENT") + [L(o[1])]
-        a, c, d = [I("a"), T("int")], [I("c"), T("text")], [I("d"), T("varchar"), LP, N(5), RP]
+        # neighbours: one sized (p,s) column before b, an unsized and a sized one after it
+        a, c, d = [I("a"), T("decimal"), LP, N(10), COMMA, N(2), RP], [I("c"), T("text")], [I("d"), T("varchar"), LP, N(5), RP]
         cols = {"first": [b, c, d], "mid": [a, b, c], "last": [a, c, b], "only": [b]}[case["pos"]]
         toks = K("CREATE", "TABLE") + [I("t")] + plist(cols)
         if case["after"]:
